@@ -8,12 +8,17 @@ Local Open Scope list_scope.
 Local Open Scope string_scope.
 
 (* ---------- the modelled fragment, as a decidable predicate on the context ---------- *)
+(* a slice whose element kind is uint8 is a Go byte slice: encoding/json prints it as a base64 string *)
+Definition byte_elem (ctx : schemas) (t : ty) : bool :=
+  (negb (is_ptr t) &&
+   match payload_type ctx t with PTy (TScalar _ KUint8 _ _) => true | _ => false end)%bool.
+
 Fixpoint ty_supported (ctx : schemas) (t : ty) : bool :=
   match t with
   | TScalar _ k _ cs =>
       (match k with KNull | KBytes | KOther _ => false | _ => true end
        && forallb (constraint_supported k) cs)%bool
-  | TArray _ v => ty_supported ctx v
+  | TArray _ v => (negb (byte_elem ctx v) && ty_supported ctx v)%bool
   | TMap _ i v => (match i with TScalar _ KString _ _ => true | _ => false end && ty_supported ctx v)%bool
   | TStruct _ _ fs => forallb (fun f => ty_supported ctx (f_type f)) fs
   | TEnum _ vs => negb (t_nullable t) && match enum_base vs with
